@@ -166,7 +166,11 @@ def check(spec):
                 res.fail("quat_norm_preserved", site, abs(P @ qd[3:]), feats)
             h = np.asarray(body.h(t, q, u), dtype=float)
             res.ok()
-            if abs(h @ u) > 1e-12 * (np.linalg.norm(h) * np.linalg.norm(u)) + 1e-30:
+            # tolerance relative to the natural size |Theta| |omega|^2 |u| of the terms, not to |h|: for a nearly
+            # isotropic inertia h itself is a rounded zero (thorough tier, seed 1: h ~ 1e-17, a false alarm of the
+            # first version which scaled with |h|)
+            hs = float(np.max(np.abs(np.asarray(spec["body"]["theta"], dtype=float)))) * float(u[3:] @ u[3:])
+            if abs(h @ u) > 1e-12 * (max(np.linalg.norm(h), hs) * np.linalg.norm(u)) + 1e-30:
                 res.fail("gyro_powerless", site, abs(h @ u), feats)
             # step_callback normalises without changing the rotation
             qn, _ = body.step_callback(t, q.copy(), u.copy())
